@@ -163,7 +163,8 @@ PROPS = {
         bins={"main": dict(tc="gcc", src="prop_C11.cpp", variants=["plain", "ne"], shims=["plain", "ne"])},
         parts=[
             dict(name="report", workers={Q: 8, T: 8}, cases={Q: 200000, T: 3000000}),
-            dict(name="cboundary", workers={Q: 8, T: 8}, cases={Q: 100000, T: 1500000}),
+            dict(name="cboundary", workers={Q: 6, T: 6}, cases={Q: 100000, T: 1500000}),
+            dict(name="success", workers={Q: 2, T: 2}, cases={Q: 150000, T: 3000000}),
         ],
         rule=("(report) 13 argument-validating entry points (ClipperD constructor + AddSubject/AddClip/AddOpenSubject, "
               "BooleanOp/Union/InflatePaths/RectClip/RectClipLines on PathsD, BooleanOp into PolyTreeD, TrimCollinear(PathD), "
@@ -173,7 +174,11 @@ PROPS = {
               "linked into the same binary (error code bit and empty result expected); (cboundary) the eight exported "
               "functions that validate enums/precision with cliptype 0..255, fillrule 0..255, precision -100..50 on "
               "degenerate inputs: return value -5/-4/-3/0, output pointers untouched on rejection, NoClip gives empty "
-              "results, returned arrays well formed. The Execute-success clause on arbitrary inputs is additionally checked "
+              "results, returned arrays well formed; (success) the C++ API's success clause: Clipper64 loaded directly, through "
+              "a ReuseableDataContainer64 or mixed, and ClipperD, with degenerate (empty / 1-2 point / horizontal-only / "
+              "coincident) or random closed and open paths, every clip type including NoClip (25%), every fill rule, all four "
+              "Execute overloads, optionally after a previous Execute or after Clear(): Execute returns true, NoClip and "
+              "cleared clippers give empty solutions. The Execute-success clause on arbitrary inputs is additionally checked "
               "inside every libFuzzer target of C10. Non-trivial = an invalid argument, a boundary precision (+-8) or a "
               "coordinate above a quarter of the range"),
         assumptions=["cases within a relative 1e-4 of the coordinate range boundary are not generated (expectation would depend on rounding)",
